@@ -74,14 +74,14 @@ CHECKS = {
             "Bounded: 19 statement shapes, 2-3 engine configurations, 2300-row inputs (3 chunks) and a 20-chunk input (fault positions beyond an operator's 16-slot output channel), single faults; faults on the committing DML operator's own output are excluded (after the commit point).",
             "DESIGN.md §3 E3, §4 C15"),
     "C16": ("E1-small-scope", "exploration",
-            "exhaustive small-scope enumeration: (a) runtime vs statically derived column types over the statement corpus, (b) INSERT sources x column types x constraints, (c) multi-row VALUES lists vs the same rows inserted one by one",
+            "exhaustive small-scope enumeration: (a) runtime vs statically derived column types over the statement corpus, (b) INSERT sources x column types x constraints, (c) multi-row VALUES lists vs the same rows inserted one by one, (d) INSERT column lists in every permutation",
             "(a) every corpus statement that executes: each returned chunk carries exactly the statically derived column kinds; (b) every combination of column type, nullability/primary-key constraint and insert source: the stored value has the declared type, is NULL only if nullable and equals the lossless conversion, or the INSERT failed.",
             "Bounded: 10 column types (incl. VECTOR(3), INTERVAL), 22 literals + NULL/omitted/INSERT..SELECT sources; 7 column types x all triples over 7 literals for multi-row VALUES (differential: three single-row INSERTs); expected stored values asserted only where the conversion is unambiguous.",
             "DESIGN.md §4 C16"),
     "C17": ("E1-small-scope", "exploration",
             "exhaustive small-scope enumeration of accepted statements x databases x engines x statistics, with a static well-formedness walk of every optimised plan and a guarded build/run",
             "For every statement of the corpus that the binder accepts: the optimizer terminates without panic, the optimised plan satisfies the executor's structural requirements (walked statically on the real plan with the real schema analysis), its output types equal the bound plan's, and building and running it does not panic.",
-            "Bounded: qgen corpus (incl. aggregates / windows / joins over every numeric column type and IN subqueries with computed select items) + 62 extra forms (DISTINCT ON with ORDER BY, computed columns of derived tables in join conditions, scalar subqueries over empty inputs / as sort keys), 6 (quick) / 60 (thorough) databases, 2 engines, 2-3 statistics assignments; plus the statement-form explorer: ~180 DDL / settings / utility / odd-DML / unsupported-SQL forms alone and in ordered pairs through Database::run (no panic, session and directory usable afterwards); planning time above 2.5 s is reported (egg's wall-clock limit is uncontrolled).",
+            "Bounded: qgen corpus (incl. aggregates / windows / joins over every numeric column type and IN subqueries with computed select items) + 65 extra forms (DISTINCT ON with ORDER BY, correlated grouped scalar subqueries, computed columns of derived tables in join conditions, scalar subqueries over empty inputs / as sort keys), 6 (quick) / 60 (thorough) databases, 2 engines, 2-3 statistics assignments; plus the statement-form explorer: ~180 DDL / settings / utility / odd-DML / unsupported-SQL forms alone and in ordered pairs through Database::run (no panic, session and directory usable afterwards); planning time above 2.5 s is reported (egg's wall-clock limit is uncontrolled).",
             "DESIGN.md §4 C17"),
     "C18": ("E3-fault-enumerators", "fault_enumeration",
             "exhaustive byte-level corruption enumeration (bit flips, overwrites, truncations at every offset of every column/index file) with query-sequence oracle",
